@@ -58,6 +58,9 @@ Init == /\ t0 \in Starts /\ l = t0
         /\ stop = FALSE /\ stopret = FALSE /\ grace = FALSE /\ viol = {}
 
 InFlight == SumOver(nr, Prios) - SumOver(nl, Prios)
+\* an AddInput / RemoveInput call has returned in this trace: capacity, exactly-once and termination are then also C17's business
+Dyn == added # {} \/ dead # {}
+Also17(S) == IF Dyn /\ S # {} THEN S \cup {"C17"} ELSE S
 HeldOf(e, p) == PairVal(e.held, p)
 Keep == UNCHANGED <<wr, rc, seen, gap, nr, nl, cl, dead, added, live, oc, ec, stop, stopret, grace>>
 \* everything written to the channels that are registered (as far as returned calls tell) has been delivered
@@ -86,13 +89,13 @@ Step ==
                                   ELSE IF Cfg.unordered THEN (IF <<e.c, e.k>> \in seen THEN {"C02", "C16"} ELSE {})
                                   ELSE IF e.k <= rc[e.c] THEN {"C02", "C16"}
                                   ELSE IF e.k # rc[e.c] + 1 /\ ~stop THEN {"C02"} ELSE {})
-                            \cup (IF InFlight + 1 > Cfg.H THEN {"C01"} ELSE {})
+                            \cup Also17(IF InFlight + 1 > Cfg.H THEN {"C01"} ELSE {})
                             \cup (IF Cfg.sat /\ e.p \in Prios /\ nr[e.p] + 1 - nl[e.p] > ShareOf(e.p) THEN {"C05"} ELSE {})
                             \cup (IF oc THEN {"C07"} ELSE {})
                        /\ UNCHANGED <<wr, nl, cl, dead, added, live, oc, ec, stop, stopret, grace>>
        [] e.e = "L" -> nl' = [nl EXCEPT ![e.p] = @ + 1] /\ UNCHANGED <<wr, rc, seen, gap, nr, cl, dead, added, live, oc, ec, stop, stopret, grace, viol>>
        [] e.e = "Q" -> /\ viol' = viol
-                            \cup (IF SumOver([p \in Prios |-> HeldOf(e, p)], Prios) > Cfg.H THEN {"C01"} ELSE {})
+                            \cup Also17(IF SumOver([p \in Prios |-> HeldOf(e, p)], Prios) > Cfg.H THEN {"C01"} ELSE {})
                             \cup (IF Cfg.sat /\ \E p \in Prios : HeldOf(e, p) # ShareOf(p) THEN {"C05"} ELSE {})
                        /\ Keep
        [] e.e = "OC" -> /\ oc' = TRUE
@@ -104,7 +107,7 @@ Step ==
        [] e.e = "EC" -> /\ ec' = TRUE
                         /\ viol' = viol \cup (IF ~Cfg.v1 /\ ~oc THEN {"C07"} ELSE {})
                         /\ UNCHANGED <<wr, rc, seen, gap, nr, nl, cl, dead, added, live, oc, stop, stopret, grace>>
-       [] e.e = "EV" -> /\ viol' = viol \cup (IF e.note # "nil" /\ ~Cfg.fault THEN {"C07"} ELSE {})
+       [] e.e = "EV" -> /\ viol' = viol \cup Also17(IF e.note # "nil" /\ ~Cfg.fault THEN {"C07"} ELSE {})
                                         \cup (IF Cfg.fault /\ e.note \notin {"nil", "divider produces an incorrect distribution"} THEN {"C15"} ELSE {})
                         /\ Keep
        [] e.e = "Deadline" -> viol' = viol \cup {IF Cfg.fault THEN "C15" ELSE "C07"} /\ Keep
@@ -125,7 +128,7 @@ Step ==
                                         \cup (IF ~stop /\ ~Cfg.fault /\ (\E c \in live \cap added : rc[c] # wr[c] \/ gap[c]) THEN {"C17"} ELSE {})
                         /\ Keep
        [] e.e \in {"StopHang", "CancelHang"} -> viol' = viol \cup {"C16"} /\ Keep
-       [] e.e = "GraceHang" -> viol' = viol \cup {"C07"} /\ Keep
+       [] e.e = "GraceHang" -> viol' = viol \cup Also17({"C07"}) /\ Keep
        [] e.e = "OutGrew" -> viol' = viol \cup {"C16"} /\ Keep
        [] e.e = "HandleAfterStop" -> viol' = viol \cup {"C16"} /\ Keep
        [] e.e = "AddRet" -> live' = live \cup {e.c} /\ added' = added \cup {e.c} /\ UNCHANGED <<wr, rc, seen, gap, nr, nl, cl, dead, oc, ec, stop, stopret, grace, viol>>
